@@ -43,7 +43,8 @@ def histogram(line):
     if "hist" in f:
         shape = _hist_shape(f)
         return ["history", "C=%s" % shape[0], "history-ops<=%d" % (4 * ((len(shape[1]) + 3) // 4)),
-                "history-mixed-alphabets" if ("dna:" in f.get("ms", "") and "prot:" in f.get("ms", "")) else "history-one-alphabet"]
+                "history-mixed-alphabets" if ("dna:" in f.get("ms", "") and "prot:" in f.get("ms", "")) else "history-one-alphabet",
+                "history-with-new-built-sequence" if ":new." in f.get("qs", "") else "history-striped-sequences-only"]
     try:
         m, l, c = int(f["M"]), int(f["L"]), int(f["C"])
     except (KeyError, ValueError):
